@@ -13,10 +13,14 @@ def sh(cmd, cwd=wt, env=None):
     r = subprocess.run(cmd, shell=True, cwd=cwd, capture_output=True, text=True, env=env)
     return r.returncode, (r.stdout + r.stderr)
 sh("git checkout -- .")
+head = subprocess.run(["git", "-C", "/repo", "rev-parse", "HEAD"], capture_output=True, text=True).stdout.strip()
+sh("git checkout -q --detach %s" % head)  # evaluate on top of /repo's current HEAD (SEED_OUT is untracked and stays)
 rc0, out0 = sh("/venv/bin/python %s" % demo)
 if os.path.basename(demo).startswith("test_") or "def test_" in open(demo).read() and "__main__" not in open(demo).read():
     rc0, out0 = sh("/venv/bin/python -m pytest -q -p no:cacheprovider %s" % demo)
 rcA, outA = sh("git apply %s" % patch)
+if rcA != 0:
+    rcA, outA = sh("git apply --3way %s && git reset -q" % patch)
 assert rcA == 0, outA
 rct, outt = sh("/venv/bin/python -m pytest -q -p no:cacheprovider --timeout=900 --continue-on-collection-errors 2>&1 | tail -1")
 tests_ok = "39 passed" in outt and "7 failed" in outt
@@ -40,7 +44,18 @@ res = {"seed": sid, "property": meta.get("property"), "summary": meta.get("summa
        "detected_by_target_property": meta.get("property") in fired and fired[meta.get("property")]["exit"] == 1,
        "ran": ["cd %s && /venv/bin/python SEED_OUT/%s_demo.py (clean: exit %d; patched: exit %d)" % (wt, which, rc0, rc1),
                "baseline suite with the patch: %s" % outt.strip(), "XV_REPO=<patched worktree> ./check Cxx for all 19 checks"],
-       "agent_notes": meta.get("ran")}
+       "agent_notes": meta.get("ran"), "worktree_path": wt, "evaluated_on_repo_head": head[:7],
+       "verif_head": subprocess.run(["git", "-C", "/verif", "rev-parse", "--short", "HEAD"], capture_output=True, text=True).stdout.strip()}
+old = os.path.join("/verif/seeded", sid, "meta.json")
+if os.path.exists(old):
+    o = json.load(open(old))
+    for k in ("round", "first_shot"):
+        if k in o:
+            res[k] = o[k]
+if len(sys.argv) > 4:
+    res["round"] = int(sys.argv[4])
+res.setdefault("first_shot", {"detected_by_target_property": res["detected_by_target_property"], "detected_by": sorted(p for p, f in fired.items() if f["exit"] == 1),
+                              "verif_head": res["verif_head"]})
 print(json.dumps({k: res[k] for k in ("seed", "confirmed", "demo_clean_exit", "demo_patched_exit", "baseline_with_patch", "detected_by_target_property")}, indent=0))
 for pid, f in fired.items():
     print("   fired:", pid, f["exit"], f["keys"][:3], f["note"])
